@@ -37,6 +37,7 @@ type c36Type struct {
 	defs    []string                // candidate DEFAULT clauses (without the keyword)
 	onUpd   string                  // optional ON UPDATE clause
 	members []string                // enum/set members
+	hostile func(rt *rapid.T, label string) c36Val // str/bin types: a value that is sure to hold quote+backslash / a NUL byte
 }
 
 type c36Col struct {
@@ -198,6 +199,13 @@ func c36StrType(class, ddl string, maxRunes int, pieces []string, keyOK bool, pr
 		return c36Val{lit: c36QuoteStr(s), key: "s:" + s, tags: c36StrTags(s)}
 	}
 	t.obs = func(q string) []string { return []string{"HEX(" + q + ")", "CHAR_LENGTH(" + q + ")"} }
+	if maxRunes >= 4 {
+		t.hostile = func(rt *rapid.T, label string) c36Val {
+			tail := []string{"'\\", "\\'", "\"\\q", "\\\\'", "'\\\x00"}[rapid.IntRange(0, 4).Draw(rt, label+".tail")]
+			s := c36GenString(rt, label, maxRunes-3, pieces) + tail
+			return c36Val{lit: c36QuoteStr(s), key: "s:" + s, tags: c36StrTags(s)}
+		}
+	}
 	if prefix == 0 {
 		t.defs = []string{"'it''s'", "''", "'a\\\\b'", "'\"q\"'", "'é'"}
 		if maxRunes < 6 {
@@ -286,6 +294,19 @@ func c36BinType(class, ddl string, max int, fixed bool, prefix int) *c36Type {
 		return c36Val{lit: lit, key: "b:" + string(stored), tags: c36BinTags(stored)}
 	}
 	t.obs = func(q string) []string { return []string{"HEX(" + q + ")", "LENGTH(" + q + ")"} }
+	t.hostile = func(rt *rapid.T, label string) c36Val {
+		b := append([]byte{}, c36GenBytes(rt, label, c36min(max-1, 10))...)
+		if len(b) > 12 {
+			b = b[:12]
+		}
+		pos := rapid.IntRange(0, len(b)).Draw(rt, label+".nulpos")
+		b = append(b[:pos], append([]byte{0}, b[pos:]...)...)
+		stored := b
+		if fixed {
+			stored = append(append([]byte{}, b...), make([]byte, max-len(b))...)
+		}
+		return c36Val{lit: c36Hex(b), key: "b:" + string(stored), tags: c36BinTags(stored)}
+	}
 	if prefix == 0 {
 		t.defs = []string{"0x00FF", "''", "'a''b'"}
 		if fixed && max < 3 {
@@ -797,8 +818,11 @@ func c36GeoType(kind string) *c36Type {
 }
 
 // c36DrawType draws a column type. Weights lean to the types with hostile textual forms.
-func c36DrawType(rt *rapid.T, label string) *c36Type {
-	switch k := rapid.IntRange(0, 39).Draw(rt, label+".type"); {
+func c36DrawType(rt *rapid.T, label string) *c36Type { return c36DrawTypeIn(rt, label, 0, 39) }
+
+// c36DrawTypeIn draws from a sub-range of the type menu (0-8 character strings, 9-15 binary strings).
+func c36DrawTypeIn(rt *rapid.T, label string, lo, hi int) *c36Type {
+	switch k := rapid.IntRange(lo, hi).Draw(rt, label+".type"); {
 	case k <= 3:
 		n := []int{5, 40, 255, 1000}[rapid.IntRange(0, 3).Draw(rt, label+".vlen")]
 		switch rapid.IntRange(0, 5).Draw(rt, label+".coll") {
@@ -932,6 +956,12 @@ func c36GenTable(rt *rapid.T, label, name string, db *c36DB, g *c36Gate) c36Tabl
 		// take no string column into PRIMARY/UNIQUE keys (see the candidates below)
 		t.collate = []string{"utf8mb4_0900_ai_ci", "utf8mb4_general_ci", "utf8mb4_bin"}[rapid.IntRange(0, 2).Draw(rt, label+".tcoll")]
 	}
+	// most databases carry, in their first table, a character column and a binary column whose first
+	// row holds quote+backslash / a NUL byte, and a NULL somewhere (the non-trivial rule of C36)
+	anchor := len(db.tables) == 0 && rapid.IntRange(0, 9).Draw(rt, label+".anchor") > 0
+	if anchor && ncols < 2 {
+		ncols = 2
+	}
 	cnames := c36Perm(rt, label+".cnames", c36ColNames, ncols)
 	if mode <= 2 {
 		t.autoPK = true
@@ -940,7 +970,17 @@ func c36GenTable(rt *rapid.T, label, name string, db *c36DB, g *c36Gate) c36Tabl
 	}
 	for ci := 0; ci < ncols; ci++ {
 		cl := fmt.Sprintf("%s.c%d", label, ci)
-		typ := c36DrawType(rt, cl)
+		typ := (*c36Type)(nil)
+		switch {
+		case anchor && ci == 0:
+			for typ == nil || typ.hostile == nil {
+				typ = c36DrawTypeIn(rt, cl, 0, 8)
+			}
+		case anchor && ci == 1:
+			typ = c36DrawTypeIn(rt, cl, 9, 15)
+		default:
+			typ = c36DrawType(rt, cl)
+		}
 		if typ.family == "bit" && g.noBit {
 			g.excluded++
 			typ = c36IntType(c36IntSpecs[9])
@@ -1055,7 +1095,7 @@ func c36GenTable(rt *rapid.T, label, name string, db *c36DB, g *c36Gate) c36Tabl
 	if rapid.IntRange(0, 4).Draw(rt, label+".hastcomment") == 0 {
 		t.comment = c36Comments[rapid.IntRange(0, len(c36Comments)-1).Draw(rt, label+".tcomment")]
 	}
-	c36GenRows(rt, label, &t, g)
+	c36GenRows(rt, label, &t, g, anchor)
 	if t.autoPK && len(t.rows) > 1 && rapid.IntRange(0, 3).Draw(rt, label+".dellast") == 0 {
 		t.delLast = 1
 	}
@@ -1089,9 +1129,13 @@ func (t *c36Table) insertCols() []int {
 	return out
 }
 
-func c36GenRows(rt *rapid.T, label string, t *c36Table, g *c36Gate) {
+func c36GenRows(rt *rapid.T, label string, t *c36Table, g *c36Gate, anchor bool) {
 	ic := t.insertCols()
 	nrows := rapid.IntRange(0, 6).Draw(rt, label+".nrows")
+	if anchor && nrows < 2 {
+		nrows = 2
+	}
+	nullDone := false
 	if rapid.IntRange(0, 9).Draw(rt, label+".manyrows") == 0 {
 		nrows = rapid.IntRange(20, 60).Draw(rt, label+".nrows2")
 	}
@@ -1120,6 +1164,11 @@ func c36GenRows(rt *rapid.T, label string, t *c36Table, g *c36Gate) {
 			vl := fmt.Sprintf("%s.r%d.%s", label, ri, fmt.Sprint(ci))
 			k := rapid.IntRange(0, 9).Draw(rt, vl+".nullordef")
 			switch {
+			case anchor && ri == 0 && c.typ.hostile != nil:
+				row[ci] = c.typ.hostile(rt, vl)
+			case anchor && ri == 1 && !nullDone && !c.notNull:
+				nullDone = true
+				row[ci] = c36Val{lit: "NULL", null: true, tags: []string{"null"}}
 			case k == 0 && !c.notNull:
 				row[ci] = c36Val{lit: "NULL", null: true, tags: []string{"null"}}
 			case k == 1 && c.def != "" && !isPK[ci] && !c36InUnique(t, ci):
